@@ -95,6 +95,19 @@ def parse_state(line):
     return None, (["unparsable output line: %r" % line[:120]] if line != "reset" else [])
 
 
+def shape_vals(shape, A, B, C, k, n, bidx):
+    """documented element-wise value of the expression shapes of harness/c01_sparse.cpp; A, B, C dense value lists"""
+    if shape == 1: return [x + y for x, y in zip(A, B)]
+    if shape == 2: return [k * x for x in A]
+    if shape == 3: return [x * y for x, y in zip(A, B)]
+    if shape == 4: return [x + k * y for x, y in zip(A, B)]
+    if shape == 5: return [abs(x) for x in A]
+    if shape == 6: return [x * x + y for x, y in zip(A, B)]
+    if shape == 7: return [k if (i == bidx and bidx < n) else 0 for i in range(n)]
+    if shape == 8: return [x - y for x, y in zip(A, B)]
+    return [x + y + z for x, y, z in zip(A, B, C)]
+
+
 # ---------------------------------------------------------------------------------------------------
 # spec monitor
 def monitor(case, out):
@@ -141,6 +154,21 @@ def monitor(case, out):
         elif h == "SCAL":
             t = V[int(a[2])]; c = int(a[3])
             exp = [OPS[a[1]](x, c) if (t.kind == "d" or i in t.stored) else 0 for i, x in enumerate(t.vals)]
+        elif h == "XV":
+            t = V[int(a[3])]; shape = int(a[4]); k = int(a[8])
+            ops = [V.get(int(a[5])), V.get(int(a[6])), V.get(int(a[7]))]
+            zero = [0] * t.n
+            ev = shape_vals(shape, ops[0].vals if ops[0] else zero, ops[1].vals if ops[1] else zero, ops[2].vals if ops[2] else zero, k, t.n, int(a[6]))
+            exp = [OPS[a[2]](x, y) for x, y in zip(t.vals, ev)]
+            key = "sparse-expr:vector:shape%d:%s:%s:%s" % (shape, a[1], a[2], t.kind)
+            if st.vals != exp and shape in (1, 4, 6, 8, 9):
+                used = [ops[0], ops[1]] + ([ops[2]] if shape == 9 else [])
+                if any(u is not None and u.kind == "s" and not u.stored for u in used): key = KEY_D3
+            if st.vals != exp:
+                bad = [i for i, (x, y) in enumerate(zip(st.vals, exp)) if x != y]
+                return ["%s %selement-wise meaning violated at index %s: observed %s, expected %s" % (key, tag, bad[:4], st.vals, exp)]
+            V[int(a[3])] = st
+            continue
         if exp is not None:
             if st.vals != exp:
                 bad = [i for i, (x, y) in enumerate(zip(st.vals, exp)) if x != y]
@@ -181,11 +209,22 @@ def monitor(case, out):
         elif h == "MSCAL":
             t = M[int(a[2])]; c = int(a[3])
             mexp = [[OPS[a[1]](t.vals[i][j], c) if t.stored(i, j) else 0 for j in range(t.c)] for i in range(t.r)]
+        elif h == "XM":
+            t = M[int(a[3])]; shape = int(a[5]); k = int(a[8]); A, B = M[int(a[6])], M[int(a[7])]
+            key = "sparse-expr:matrix:shape%d:%s:%s:%s%s<-%s" % (shape, a[1], a[2], t.kind, t.orient, a[4])
+            mexp = []
+            for i in range(t.r):
+                ev = shape_vals(shape, A.vals[i], B.vals[i], B.vals[i], k, t.c, 0)
+                mexp.append([OPS[a[2]](x, y) for x, y in zip(t.vals[i], ev)])
+            if st.vals != mexp and shape in (1, 4, 8):
+                def empty_line(X):
+                    return any(len(el) == 0 for _, el in X.lines)
+                if empty_line(A) or empty_line(B): key = KEY_D3
         if mexp is None:
             return ["sparse:%s %sunknown command" % (h, tag)]
         if st.vals != mexp:
             return ["%s %selement-wise meaning violated: observed %s, expected %s" % (key, tag, st.vals, mexp)]
-        M[int(a[1] if h in ("NSM", "NDM", "MPUT", "MRESERVE", "MMRES", "MCLEAR", "MCLRR", "MKA") else a[3] if h in ("MKF", "MOP") else a[2])] = st
+        M[int(a[1] if h in ("NSM", "NDM", "MPUT", "MRESERVE", "MMRES", "MCLEAR", "MCLRR", "MKA") else a[3] if h in ("MKF", "MOP", "XM") else a[2])] = st
     return []
 
 
@@ -234,11 +273,24 @@ def gen_vector_case(rng):
         elif u < 0.42:
             if t == s or (kinds[t] == "d" and kinds[s] == "d"): continue
             L.append("KA %d %d" % (t, s))
-        elif u < 0.80:
+        elif u < 0.62:
             form = rng.choice(["plain", "noalias"]); o = rng.choice(["=", "+=", "+=", "-=", "-=", "*="])
             if form == "noalias" and t == s: continue
             if kinds[t] == "d" and kinds[s] == "d": continue
             L.append("OP %s %s %d %d" % (form, o, t, s))
+        elif u < 0.80:
+            # sparse expression as right-hand side
+            form = rng.choice(["plain", "noalias"]); o = rng.choice(["=", "=", "+=", "-=", "*="])
+            shape = rng.choice([1, 1, 2, 3, 4, 5, 6, 7, 8, 8, 9])
+            a, b, c = rng.choice(sparse), rng.choice(sparse), rng.choice(sparse); k = rng.choice([-2, -1, 2, 3])
+            if shape == 7: b = rng.randint(0, n + 1)
+            used = {1: [a, b], 2: [a], 3: [a, b], 4: [a, b], 5: [a], 6: [a, b], 7: [], 8: [a, b], 9: [a, b, c]}[shape]
+            if form == "noalias" and t in used: continue
+            if form == "plain" and o == "=" and kinds[t] == "s": continue      # does not compile (sparse.hpp:131)
+            if shape == 3 and o == "-=": continue                               # does not compile (compose functor traits)
+            L.append("XV %s %s %d %d %d %d %d %d" % (form, o, t, shape, a, b, c, k))
+        elif u < 0.80 + 0.0:
+            pass
         elif u < 0.86 and n > 0:
             L.append("PUT %d %d %d" % (t, rng.randrange(n), val()))
         elif u < 0.90:
@@ -277,11 +329,19 @@ def gen_matrix_case(rng):
         elif u < 0.45:
             if t == s: continue
             L.append("MKA %d %d" % (t, s))
-        elif u < 0.85:
+        elif u < 0.68:
             form = rng.choice(["plain", "noalias"]); o = rng.choice(["=", "+=", "+=", "-=", "*="])
             if form == "noalias" and t == s: continue
             if form == "plain" and o == "=" and kinds[t][0] == "s" and kinds[t] != kinds[s]: continue   # does not compile (sparse.hpp:243)
             L.append("MOP %s %s %d %d" % (form, o, t, s))
+        elif u < 0.85:
+            orient = rng.choice("RC"); cands = [i for i, k in enumerate(kinds) if k == "s" + orient]
+            if not cands: continue
+            a, b = rng.choice(cands), rng.choice(cands); shape = rng.choice([1, 1, 2, 3, 4, 8]); k = rng.choice([-2, -1, 2, 3])
+            form = rng.choice(["noalias", "noalias", "plain"]); o = "+=" if form == "plain" else rng.choice(["=", "=", "+=", "-=", "*="])
+            if form == "noalias" and t in ([a] if shape == 2 else [a, b]): continue
+            if shape == 3 and o == "-=": continue
+            L.append("XM %s %s %d %s %d %d %d %d" % (form, o, t, orient, shape, a, b, k))
         elif u < 0.90:
             L.append("MPUT %d %d %d %d" % (t, rng.randrange(r), rng.randrange(c), val()))
         elif u < 0.94:
@@ -301,6 +361,9 @@ REGRESSION = [
     ["RESET", "NSV 0 6", "NSV 1 6", "PUT 0 1 5", "PUT 0 3 7", "PUT 1 0 2", "PUT 1 3 4", "PUT 1 5 9", "OP noalias -= 0 1"],
     ["RESET", "NSV 0 6", "NDV 1 6", "PUT 0 1 5", "PUT 0 3 7"] + ["PUT 1 %d %d" % (i, i + 1) for i in range(6)] + ["OP noalias *= 0 1"],
     ["RESET", "NSV 0 6", "NSV 1 6", "PUT 0 1 5", "PUT 1 2 4", "PUT 1 4 9", "PUT 1 5 -3", "KF rsub 0 0 1"],
+    # binary_transform_iterator (32ed6769): a + b where one operand stores nothing
+    ["RESET", "NSV 0 6", "NSV 1 6", "NDV 2 6", "PUT 1 2 -1", "PUT 1 3 -4", "XV plain = 2 1 0 1 0 0", "XV noalias = 2 1 1 0 0 0", "XV noalias += 2 8 1 0 0 0"],
+    ["RESET", "NSM 0 R 2 4", "NSM 1 R 2 4", "NDM 2 R 2 4", "MPUT 1 0 1 5", "MPUT 1 0 3 6", "MPUT 1 1 2 7", "XM noalias = 2 R 1 0 1 0"],
 ]
 
 
@@ -342,6 +405,14 @@ def valid(case):
                 if V[t][1] != V[s0][1] or (V[t][0] == "d" and V[s0][0] == "d"): return False
                 if t == s0 and not (h == "OP" and a[1] == "plain"): return False
                 V[t][2] = None if V[t][0] == "s" else None
+            elif h == "XV":
+                t = int(a[3]); shape = int(a[4]); ids = {1: a[5:7], 2: a[5:6], 3: a[5:7], 4: a[5:7], 5: a[5:6], 6: a[5:7], 7: [], 8: a[5:7], 9: a[5:8]}[shape]
+                for x in ids:
+                    if V[int(x)][0] != "s" or V[int(x)][1] != V[t][1]: return False
+                if a[1] == "noalias" and str(t) in ids: return False
+                if a[1] == "plain" and a[2] == "=" and V[t][0] == "s": return False
+                if shape == 3 and a[2] == "-=": return False
+                V[t][2] = None
             elif h == "SCAL":
                 V[int(a[2])]
             elif h in ("NSM", "NDM"):
@@ -362,6 +433,13 @@ def valid(case):
                 if M[s0][0] != "s" or M[t][2:] != M[s0][2:]: return False
                 if t == s0 and not (h == "MOP" and a[1] == "plain"): return False
                 if h == "MOP" and a[1] == "plain" and a[2] == "=" and M[t][0] == "s" and M[t][1] != M[s0][1]: return False
+            elif h == "XM":
+                t = int(a[3]); shape = int(a[5]); ids = a[6:7] if shape == 2 else a[6:8]
+                for x in ids:
+                    if M[int(x)][0] != "s" or M[int(x)][1] != a[4] or M[int(x)][2:] != M[t][2:]: return False
+                if a[1] == "noalias" and str(t) in ids: return False
+                if a[1] == "plain" and a[2] != "+=": return False
+                if shape == 3 and a[2] == "-=": return False
             elif h == "MSCAL":
                 if M[int(a[2])][0] != "s": return False
             else:
@@ -452,7 +530,7 @@ def stream(ck, rng, ncases):
     hist = {}
     for c in cases:
         for l in c:
-            w = l.split(); k = w[0] + (":" + w[1] if w[0] in ("KF", "MKF", "OP", "MOP") else "")
+            w = l.split(); k = w[0] + (":" + w[1] if w[0] in ("KF", "MKF", "OP", "MOP") else ":shape" + w[4] if w[0] == "XV" else ":shape" + w[5] if w[0] == "XM" else "")
             hist[k] = hist.get(k, 0) + 1
     ck.notes["sparse_stream"] = {"cases": len(cases), "commands": sum(len(c) for c in cases), "command_histogram": hist,
                                  "disagreements": res["disagreements"], "monitor_failures": res["monitor_failures"],
